@@ -4,7 +4,7 @@
    by executing every single-field query of generated definitions (harness); the theorems below are the rejection half and
    the identifier lemma that usability relies on. *)
 From Coq Require Import String List Bool.
-Require Import V.Base.PyLib V.Model.Graph V.Model.Valid V.Proofs.C10_proofs V.Proofs.C20_proofs.
+Require Import V.Base.PyLib V.Model.Graph V.Model.Valid V.Model.ValidTable V.Gen.Validate_gen V.Proofs.C10_proofs V.Proofs.C20_proofs.
 Import ListNotations.
 Open Scope string_scope.
 
@@ -61,3 +61,11 @@ Example C20_nonvacuous :
                                                             {| dq_model := Some "orders"; dq_dim := "created"; dq_gran := Some "decade" |} ] = [ENonTime "orders" "status"; EGran "decade"] /\
   validate_query ex_ms ex_g [] [MQual "orders" "revenue"] [ {| dq_model := Some "orders"; dq_dim := "created"; dq_gran := Some "week" |} ] = [].
 Proof. exact ex_disconnected_granular. Qed.
+
+(* TIE BY REGENERATION: Gen/Validate_gen.v holds the errors validation.validate_query reports on 154 scripted scenarios (eleven metric lists x fourteen
+   dimension lists over a graph with two joined models, an unconnected one and three graph-level metrics: valid, unknown-model, unknown-field,
+   bad-granularity, granularity-on-non-time, undotted and unconnected references), extracted from validation.py on every run by executing the
+   function's AST (translator/gen_validate.py, fail closed, validated against CPython).  The model `validate_query` of the theorems above reports the
+   same reference errors in the same order and the same set of unjoinable pairs on every scenario. *)
+Theorem C20_validate_table : forallb validate_row_ok validate_rows = true.
+Proof. vm_compute. reflexivity. Qed.
